@@ -18,7 +18,7 @@ from ..facts import AnalysisError
 from ..sym import enum_members
 from ..terms import const, contains, show, strip_sites, subterms
 from ..util import InlineOnly, NoInline, P, Scan, calls_to, engine, loc, param_at
-from .C10 import sleep_arg, timing_leaf
+from .C10 import TIMING_VALUATIONS, sleep_arg, timing_leaf
 
 SUBS = "sd.ServiceSubscriber"
 PROTO = "sd.ServiceDiscoveryProtocol"
@@ -65,6 +65,7 @@ def check(run, prog, tier):
     run.paths += len(sp)
     leaf = timing_leaf(me)
     fresh = True
+    complete = True
     sleeps_ok = True
     rounds = 0
     none_break = False
@@ -80,7 +81,7 @@ def check(run, prog, tier):
             elif e.kind == "await":
                 awaited_since = True
                 a = sleep_arg(e)
-                if a is None or eval_term(a, leaf) != 29:
+                if a is None or any(eval_term(a, timing_leaf(me, valuation=V)) != V["SUBSCRIBE_REFRESH_INTERVAL"] for V in TIMING_VALUATIONS):
                     sleeps_ok = False
             elif e.kind == "call" and any(f.qual == m["_send_start_subscribe"].qual for f in e.targets):
                 if last_group is None or awaited_since:
@@ -89,6 +90,18 @@ def check(run, prog, tier):
                 a0, a1 = e.args[0] if e.args else None, e.args[1] if len(e.args) > 1 else None
                 if not (a0 is not None and a1 is not None and contains(a0, lambda s: s == last_group.result) and contains(a1, lambda s: s == last_group.result)):
                     fresh = False
+                # ... and to every server goes its *complete* group, unfiltered
+                G = last_group.result if last_group is not None else None
+                whole = False
+                if G is not None and a0 is not None and a1 is not None:
+                    if a0[0] == "item" and a1[0] == "item" and a0[1] == a1[1] and a0[1][0] == "elem" and a0[2] == const(0) and a1[2] == const(1):
+                        it = a0[1][1]
+                        whole = it[0] == "call" and it[1] == ("attr", G, "items")
+                    elif a0[0] == "elem" and a1 == ("item", G, a0):
+                        it = a0[1]
+                        whole = it == G or (it[0] == "call" and it[1] == ("attr", G, "keys"))
+                if not whole:
+                    complete = False
         rounds = max(rounds, n_rounds)
         for c, v, _, _ in p.conds:
             if strip_sites(c) == ("cmp", "is", ("attr", ("attr", me, "timings"), "SUBSCRIBE_REFRESH_INTERVAL"), const(None)) and v and p.returns():
@@ -96,6 +109,9 @@ def check(run, prog, tier):
     run.ob("M1", f"{m['_subscribe'].qual}:round-uses-current-set", fresh, loc(m["_subscribe"]),
            "each refresh round groups the current requested set and sends it without an await in between" if fresh else
            "a refresh round sends pairs computed before an await (stale set)")
+    run.ob("M4", f"{m['_subscribe'].qual}:round-sends-every-requested-pair", complete, loc(m["_subscribe"]),
+           "a refresh round sends every server its complete group of requested eventgroups" if complete else
+           "a refresh round sends a filtered / transformed subset of the requested pairs: a subscription that stays requested can miss a refresh and expire at the server")
     run.ob("M4", f"{m['_subscribe'].qual}:sleeps-refresh-interval", sleeps_ok and rounds >= 2, loc(m["_subscribe"]),
            f"rounds are separated by sleep(SUBSCRIBE_REFRESH_INTERVAL); {rounds} rounds on the longest enumerated path")
     run.ob("M4", f"{m['_subscribe'].qual}:no-refresh-when-interval-is-None", none_break, loc(m["_subscribe"]), "with no refresh interval exactly one round is sent")
@@ -170,6 +186,13 @@ def check(run, prog, tier):
         cancels = [e for e in p.events if e.kind == "call" and e.attrname == "cancel"]
         run.ob("M2", f"{st.qual}:alive-cleared-then-stops[{len(sch)}]", ok and (len(cancels) >= 1 or not [c for c in p.conds if c[0] == ("attr", me, "task") and c[1]]), loc(st),
                f"alive := False first, then {len(sch)} StopSubscribe group(s) scheduled, refresh task cancelled {len(cancels)}x")
+    for name in ("stop", "start"):
+        ef = Effects(prog, DeepInline(unroll=1), slots)
+        effs = ef.collect(m[name], recv=SUBS)
+        muts = [e for e in effs if e.kind == "state" and e.what[0] == SUBS and e.what[1] == "subscribeentries"]
+        run.ob("M2", f"{m[name].qual}:keeps-the-requested-set", not muts, loc(m[name]),
+               f"{name}() leaves the requested set alone (requests survive a stop/start cycle)" if not muts else
+               f"{name}() changes the requested set ({muts[0].what[3]} at {muts[0].ev.loc}): after stop() and start() the subscriber no longer asks for what is still requested")
     sta = m["start"]
     okst = False
     for p in e0.paths(sta, recv=SUBS):
